@@ -72,25 +72,31 @@ class ServerWorld:
         return self.d.choice(SHORT_GRID, "store", op, n)
 
 
+def _yml(marker):
+    # every configuration directory carries its own marker in the general instructions: the prompt (and with it the stub LLM's
+    # reply) tells which configuration really served a request
+    return CONFIG_YML + "instructions:\n  - type: general\n    content: |\n      CFG[%s] you are a bot.\n" % marker
+
+
 def build_tree(base):
     root = os.path.join(base, "root")
     for cid in VALID_IDS:
         os.makedirs(os.path.join(root, cid))
         with open(os.path.join(root, cid, "config.yml"), "w") as f:
-            f.write(CONFIG_YML)
+            f.write(_yml(cid))
     os.makedirs(os.path.join(root, "_hidden"))
     with open(os.path.join(root, "_hidden", "config.yml"), "w") as f:
-        f.write(CONFIG_YML)
+        f.write(_yml("_hidden"))
     os.makedirs(os.path.join(root, ".dot"))
     with open(os.path.join(root, ".dot", "config.yml"), "w") as f:
-        f.write(CONFIG_YML)
+        f.write(_yml(".dot"))
     with open(os.path.join(root, "file.txt"), "w") as f:
         f.write("not a directory")
     # decoys OUTSIDE the root; `root2` shares the root's name as a string prefix
     for out in ("outside", "root2", os.path.join("root2", "cfgX")):
         os.makedirs(os.path.join(base, out), exist_ok=True)
         with open(os.path.join(base, out, "config.yml"), "w") as f:
-            f.write(CONFIG_YML)
+            f.write(_yml("OUTSIDE:" + out))
     return root
 
 
@@ -108,7 +114,7 @@ class C20(Prop):
                  "embedding model", "event loop clock (SimLoop)"],
     }
     assumptions = ["the root itself counts as inside the root (config_id '.' resolves to it); confinement is judged on os.path.realpath", "store errors are outside the property's quantifier (not injected)"]
-    expected_probes = ["hostile_id_rejected", "valid_id_loaded", "thread_second_request", "concurrent_threads", "combined_config_ids", "empty_config_id"]
+    expected_probes = ["answering_config_identified", "hostile_id_rejected", "valid_id_loaded", "thread_second_request", "concurrent_threads", "combined_config_ids", "empty_config_id"]
     ddmin_paths = [("requests",)]
     quick_runs = 400
     thorough_runs = 30000
@@ -141,6 +147,9 @@ class C20(Prop):
                 r["thread_id"] = d.choice(THREADS, "tid", i)
             if d.chance(0.25, "ctx", i):
                 r["context"] = {"k": "v%d" % i}
+            if d.chance(0.2, "extra", i):
+                # a request may bring several new messages at once (a client catching up): all of them follow the stored thread
+                r["extra"] = [{"role": "user", "content": "earlier question %d" % i}, {"role": "assistant", "content": "earlier answer %d" % i}][: d.randint(1, 2, "nextra", i)]
             reqs.append(r)
         return {"requests": reqs, "family": d.weighted([("seq", 3), ("conc", 2)], "family"), "default_config_id": d.choice([None, None, "cfgA"], "default"), "lat_seed": d.randint(0, 1 << 30, "lat")}
 
@@ -157,7 +166,7 @@ class C20(Prop):
             lp = holder.get("loop")
             return lp.time() if lp is not None else 0.0
 
-        resp = llm_peer.LLMWorld(lambda call: "LLM[g%s] generated answer" % (_last_tok(call.prompt) or "#none#"), latency_fn=lambda call: world.d.choice(SHORT_GRID, "llm", call.n), clock=clock)
+        resp = llm_peer.LLMWorld(lambda call: "LLM[g%s] generated answer%s" % (_last_tok(call.prompt) or "#none#", "".join(" via <%s>" % m[4:-1] for m in _cfg_markers(call.prompt))), latency_fn=lambda call: world.d.choice(SHORT_GRID, "llm", call.n), clock=clock)
         llm_peer.set_current_world(resp)
         store = SimDataStore(world)
         real_from_path = api.RailsConfig.from_path
@@ -199,7 +208,7 @@ class C20(Prop):
             async def one(i, r):
                 tok = llm_peer.conv_var.set("r%d" % i)
                 try:
-                    body = {"messages": [{"role": "user", "content": r["text"]}]}
+                    body = {"messages": [dict(m) for m in r.get("extra", [])] + [{"role": "user", "content": r["text"]}]}
                     for k in ("config_id", "config_ids", "thread_id", "context"):
                         if k in r:
                             body[k] = expand(copy.deepcopy(r[k])) if k.startswith("config") else copy.deepcopy(r[k])
@@ -321,8 +330,21 @@ class C20(Prop):
             if any(c == "may-load" for c in classes):
                 out.probe("alternative_spelling_served")
             out.probe("valid_id_loaded")
+            # which configuration answered: its marker travels through the prompt into the stub LLM's reply
+            # (the reply spells it `via <name>` so that replies quoted in later prompts of a thread are not taken for instructions)
+            import re as _re
+
+            marks = set("CFG[%s]" % m for m in _re.findall(r"via <([^>]*)>", content if isinstance(content, str) else ""))
+            if any(m.startswith("CFG[OUTSIDE") for m in marks):
+                out.violate("loaded-outside-root", "served-by-outside-config", "request %d (config ids %r) was answered by a configuration from outside the root: %r" % (i, eff_ids, sorted(marks)))
+            if all(c == "must-load" for c in classes):
+                allowed = set("CFG[%s]" % c for c in eff_ids)
+                if not marks <= allowed or (len(eff_ids) == 1 and marks != allowed):
+                    out.violate("served-by-other-config", "plain-name", "request %d asked for configuration(s) %r but the reply %r was produced with %r" % (i, eff_ids, content, sorted(marks)))
+                else:
+                    out.probe("answering_config_identified")
             # ---- oracle (b): threads ---------------------------------------------------------------
-            new_msgs = ([{"role": "context", "content": r["context"]}] if "context" in r else []) + [{"role": "user", "content": r["text"]}]
+            new_msgs = ([{"role": "context", "content": r["context"]}] if "context" in r else []) + [dict(m) for m in r.get("extra", [])] + [{"role": "user", "content": r["text"]}]
             calls = [m for (tag, m) in world.gen_calls if tag == "r%d" % i]
             tid = r.get("thread_id")
             if tid:
@@ -377,6 +399,12 @@ def _content(st):
         return st[1]["messages"][0]["content"]
     except Exception:
         return repr(st[1])[:80]
+
+
+def _cfg_markers(prompt):
+    import re
+
+    return re.findall(r"CFG\[[^\]]*\]", prompt if isinstance(prompt, str) else repr(prompt))
 
 
 def _last_tok(prompt):
